@@ -16,8 +16,11 @@
       - `center`, `with_center`, `offset`: guard `IsU32` only (the type invariant `width, height <= u32::MAX`,
         which `Nat` does not carry): `(size - 1) / 2` of a `u32` always fits `i32`.
   * `AnchorPoint` is a 9-variant enum in Rust and a pair `⟨AnchorX, AnchorY⟩` in the hand model (`apOf`).
+  * `rows()` / `columns()` return a `Range<i32>` (its two ends) in Rust and the list of values in the hand model:
+    `range_i32_to_list (RectSrc.rows r) = r.rows`, and the ends are `⟨tl.y, rowsEnd⟩` (`rows_ends_src_eq_model`).
   * everything else (`with_corners`, `envelope`, `anchor_*`, `resized*`, `rows`, `columns`, `is_zero_sized`,
     `overlaps`, `center_offset`, `translate`, constructors) is equal unconditionally.
+  The `Points` iterator is in `GeneratedPoints.lean`.
 -/
 import EG.Generated.RectSrc
 import EG.Lemmas.RectPoints
